@@ -158,9 +158,9 @@ Lemma tj_forgot c jb : JobOK c jb -> jph jb = TCancelling -> fixed c = false -> 
 Proof. intros OK E F. pose proof (ok_phase _ _ OK) as P. unfold phase_ok in P. rewrite E in P.
   apply jobok_phase; [exact OK|]. unfold phase_ok. cbn. auto. Qed.
 
-Lemma tj_start c jb : JobOK c jb -> jph jb = TWaiting \/ jph jb = TCancelling -> JobOK c (job_start jb).
+Lemma tj_start c jb : JobOK c jb -> jph jb = TWaiting \/ jph jb = TCancelling \/ jph jb = TKilled -> JobOK c (job_start jb).
 Proof. intros [P R H] E. constructor; [|reflexivity| destruct H; constructor; assumption].
-  unfold phase_ok in *. cbn. destruct E as [E|E]; rewrite E in *; exact P. Qed.
+  unfold phase_ok in *. cbn. destruct E as [E|[E|E]]; rewrite E in *; exact P. Qed.
 
 Lemma tj_ret c jb v pre : JobOK c jb -> jstarted jb = true -> JobOK c (job_ret jb v pre).
 Proof. intros [P R H] E. constructor; [|intros _; exact E| destruct H; constructor; assumption].
